@@ -26,6 +26,10 @@ class Obligation:
     self.model = None
 
 
+# spec functions whose definitional axioms contracts may instantiate through ('axiom', name, formula)
+DEFINED_SPEC_FUNCTIONS = {'oa_keys'}
+
+
 class Exec(ExprMixin, CallMixin):
 
   def __init__(self, fn_node, ctr, module_globals=None, quick_timeout_ms=300,
@@ -134,6 +138,10 @@ class Exec(ExprMixin, CallMixin):
       elif kind == 'nvar':
         # definite description of store_nvar: name = (g, has array), t = candidate count
         out.append(nvar_is(name[0], name[1], t))
+      elif kind == 'axiom':
+        # definitional axiom of a named spec function (name documents which), given as a formula
+        assert name in DEFINED_SPEC_FUNCTIONS, name
+        out.append(t)
       elif kind == 'dkeys':
         # axioms of the ghost key enumeration of one membership array (name = has array)
         from pyvc.expr import dkeys_axioms
